@@ -34,6 +34,20 @@ theorem ord_produce {c : Cfg} {σ : RunSt} {g : Ghost} (hc : CfgOK c) (h : FInv 
     show (g.released ++ [T]).flatten = _
     simp
 
+/-- a clean restart (all writes of the last operation are durable) takes no release back -/
+theorem cut_released_len (g : Ghost) (ws : List FW) : (g.cut ws ws.length).released = g.released := by
+  cases ws with
+  | nil => rfl
+  | cons w tl =>
+    have hne : (w :: tl).length ≠ 0 := by simp
+    cases w with
+    | qput b => simp only [Ghost.cut, hne, ↓reduceIte]
+    | qdel b =>
+      simp only [Ghost.cut, hne, ↓reduceIte]
+      split <;> rfl
+    | seen t => rfl
+    | st w => rfl
+
 /-- one operation that is not a crash keeps the release order -/
 theorem step_ord {c : Cfg} {σ σ' : RunSt} {g : Ghost} (hc : CfgOK c) (h : FInv c σ g) (ho : Ord σ g) (op : Op)
     (hop : op.isCrash = false) (hs : opStep c σ op = some σ') : Ord σ' (gstep c σ g op) := by
@@ -76,16 +90,7 @@ theorem step_ord {c : Cfg} {σ σ' : RunSt} {g : Ghost} (hc : CfgOK c) (h : FInv
       · simp only [Option.some.injEq] at h1
         subst h1
         exact image_nil rfl _
-    have hrel : (g.cut σ.ws σ.ws.length).released = g.released := by
-      have hcf := h.cutFull
-      unfold Ghost.cut at hcf ⊢
-      split
-      · split <;> rfl
-      · rename_i b tl
-        have hne : (FW.qdel b :: tl).length ≠ 0 := by simp
-        rw [if_neg hne]
-        split <;> rfl
-      · rfl
+    have hrel : (g.cut σ.ws σ.ws.length).released = g.released := cut_released_len g σ.ws
     show (g.cut σ.ws σ.ws.length).released.flatten = _
     rw [hrel, ← hf1.all, himg, h.all]
     exact ho
